@@ -1,10 +1,6 @@
 // replay for property C06, harness construction::features::capacity::verif_kani_proofs::c06_cap_kernel_missing_parts (crate vrp-core, proof module capacity)
 // failed: assertion failed: actual == expected @ capacity_proofs.rs:104
 // run: /verif/check --replay /verif/replays/C06/c06_cap_kernel_missing_parts.rs
-/// Test generated for harness `construction::features::capacity::verif_kani_proofs::c06_cap_kernel_missing_parts` 
-///
-/// Check for `cover`: "accepted-without-state"
-
 #[test]
 fn kani_concrete_playback_c06_cap_kernel_missing_parts_6027992492434505959() {
     let concrete_vals: Vec<Vec<u8>> = vec![
@@ -24,10 +20,6 @@ fn kani_concrete_playback_c06_cap_kernel_missing_parts_6027992492434505959() {
     kani::concrete_playback_run(concrete_vals, c06_cap_kernel_missing_parts);
 }
 
-/// Test generated for harness `construction::features::capacity::verif_kani_proofs::c06_cap_kernel_missing_parts` 
-///
-/// Check for `cover`: "rejected-without-state"
-
 #[test]
 fn kani_concrete_playback_c06_cap_kernel_missing_parts_16026435384734599504() {
     let concrete_vals: Vec<Vec<u8>> = vec![
@@ -46,10 +38,6 @@ fn kani_concrete_playback_c06_cap_kernel_missing_parts_16026435384734599504() {
     ];
     kani::concrete_playback_run(concrete_vals, c06_cap_kernel_missing_parts);
 }
-
-/// Test generated for harness `construction::features::capacity::verif_kani_proofs::c06_cap_kernel_missing_parts` 
-///
-/// Check for `assertion`: "assertion failed: actual == expected"
 
 #[test]
 fn kani_concrete_playback_c06_cap_kernel_missing_parts_15586431764983946106() {
